@@ -7,6 +7,8 @@ package storage
 // Add-only; nothing here is compiled without the tag.
 
 import (
+	"sync"
+
 	"github.com/marekgalovic/anndb/cluster"
 	"github.com/marekgalovic/anndb/index"
 	pb "github.com/marekgalovic/anndb/protobuf"
@@ -82,4 +84,18 @@ func (this *Dataset) VerifSetSearchClient(nodeId uint64, c pb.SearchClient) {
 	this.searchClientsMu.Lock()
 	defer this.searchClientsMu.Unlock()
 	this.searchClients[nodeId] = c
+}
+
+// VerifNewDatasetManager wraps already-built datasets in a catalogue object so that the real service objects
+// (services.New*Server) can be driven without a zero group.
+func VerifNewDatasetManager(datasets ...*Dataset) *DatasetManager {
+	dm := &DatasetManager{
+		datasets:    make(map[uuid.UUID]*Dataset),
+		datasetsMu:  &sync.RWMutex{},
+		notificator: utils.NewNotificator(),
+	}
+	for _, d := range datasets {
+		dm.datasets[d.id] = d
+	}
+	return dm
 }
